@@ -281,20 +281,17 @@ int snoopy_configfile_parseValue_output (
     snoopy_configuration_t* CFG
 ) {
     char  *confVal;
+    char  *colonPos;
     const char * outputName;
     const char * outputArg;
     int    outputArgFound = SNOOPY_FALSE;
-
-
-    // Do not assign null to it explicitly, as you get "Explicit null dereference" Coverity error.
-    // If you do not assign it, Coverity complains with "Uninitialized pointer read".
-    char  *saveptr1 = "";
 
     // First clone the config value, as it gets freed by ini parsing library
     confVal = strdup(confValString);
 
     // Check if configured value contains argument(s)
-    if (NULL == strchr(confVal, ':')) {
+    colonPos = strchr(confVal, ':');
+    if (NULL == colonPos) {
         outputName = confVal;
         CFG->output_arg          = "";
         CFG->output_arg_malloced = SNOOPY_FALSE;
@@ -302,8 +299,11 @@ int snoopy_configfile_parseValue_output (
     } else {
         // Separate output name from its arguments
         // (arguments may contain further ':' characters, like "file:/var/log/snoopy-%{datetime:%Y-%m-%d}")
-        outputName = strtok_r(confVal, ":", &saveptr1);
-        outputArg  = outputName + strlen(outputName) + 1;
+        // (split at the first colon by hand - strtok_r() skips leading delimiters and
+        // returns NULL for ":", which made "output = :" and "output = :file" read out of bounds)
+        *colonPos  = '\0';
+        outputName = confVal;
+        outputArg  = colonPos + 1;
         outputArgFound = SNOOPY_TRUE;
     }
 
